@@ -612,6 +612,46 @@ def run(only=None):
         explore.feed(s, res, WHAT, name=name, rep=rep)
         s.done()
         rep.bounds[name] = {"depth_completed": res.depth_completed, "states": res.states, "transitions": res.transitions}
+    if not only or "long_data_transmission" in only:
+        from okdmr.dmrlib.transmission.transmission_generator import TransmissionGenerator as _TG
+        from okdmr.dmrlib.etsi.layer2.pdu.data_header import DataHeader as _DH
+        from okdmr.dmrlib.etsi.layer2.elements.data_packet_formats import DataPacketFormats as _DPF
+        from okdmr.dmrlib.etsi.layer2.elements.sap_identifier import SAPIdentifier as _SAP
+        from okdmr.dmrlib.etsi.layer2.elements.full_message_flag import FullMessageFlag as _FMF
+        from okdmr.dmrlib.etsi.layer2.elements.resynchronize_flag import ResynchronizeFlag as _RF
+        s = rep.sub("long_data_transmission",
+                    "linear histories with the longest transmissions the header can announce: (preambles, data blocks) in {(16, 120), (16, 127), (0, 127), "
+                    "(100, 40)} at rate 1/2, generated by the library and received by one Terminal: one started, one ended, the ended event hands over "
+                    "every preamble, the header and every block, in order, and the tracker is idle afterwards")
+        for k_pre, n_blk in ((16, 120), (16, 127), (0, 127), (100, 40)):
+            case = {"preambles": k_pre, "data_blocks": n_blk}
+            try:
+                payload = bytes((i * 7 + 3) & 0xFF for i in range((n_blk - 1) * 12 + 8))
+                blocks_, pad_ = _TG.generate_data_bursts(packet_type=Rate12Data, userdata=payload, colour_code=1, is_confirmed=False)
+                hdr_ = _DH(dpf=_DPF.DataPacketUnconfirmed, is_group=False, is_response_requested=False, pad_octet_count=pad_, sap_identifier=_SAP.ShortData,
+                           llid_destination=2305678, llid_source=2301234, full_message_flag=_FMF.FirstTryToCompletePacket, blocks_to_follow=len(blocks_),
+                           resynchronize_flag=_RF.DoNotSync, send_sequence_number=0, fragment_sequence_number=8)
+                bursts_ = _TG.generate_full_data_transmission(packet_type=Rate12Data, userdata=payload, data_header=hdr_, csbk_count=k_pre, colour_code=1)
+                rec = Recorder("long")
+                SEAMS.tok = 0
+                term = Terminal(dmrid=1, observers=[rec])
+                with contextlib.redirect_stdout(_stdout_for_the_library()):
+                    for b_ in bursts_:
+                        term.process_incoming_burst(Burst.from_bytes(b_.as_bytes()), 1)
+                kinds_ = [(e[0], e[1]) for e in rec.events]
+                if kinds_ != [("started", "D"), ("ended", "D")]:
+                    s.violation("long_data_transmission:not_one_started_one_ended", {**case, "events": kinds_[:6]})
+                else:
+                    handed = rec.events[1][3]
+                    if len(handed) != k_pre + 1 + len(blocks_):
+                        s.violation("long_data_transmission:handed_over_blocks_incomplete", {**case, "handed_over": len(handed), "received": k_pre + 1 + len(blocks_)},
+                                    "the ended event does not hand over every block received since the start")
+                if term.timeslots[1].transmission.type.name != "Idle":
+                    s.violation("long_data_transmission:tracker_not_idle_after_ended", case)
+            except Exception as e:  # noqa: BLE001
+                s.violation("long_data_transmission:exception:" + exc_sig(e), case, repr(e))
+            s.case(nontrivial=True, calls=k_pre + 1 + n_blk, outcome=(k_pre, n_blk), sample=case if len(s.samples) < 1 else None)
+        s.done()
     return rep.finish()
 
 
